@@ -582,7 +582,10 @@ class Interp(object):
                 self.exec_block(s.orelse, frame)
         elif isinstance(s, ast.Raise):
             if s.exc is None:
-                raise OutOfReach("bare raise")
+                cur = getattr(frame, "handling", None)
+                if not cur:
+                    raise OutOfReach("bare raise outside an except block")
+                raise PyRaise(cur[-1].cls, cur[-1].msg)
             cls, msg = self.eval_exc(s.exc, frame)
             raise PyRaise(cls, msg)
         elif isinstance(s, ast.While):
@@ -606,7 +609,35 @@ class Interp(object):
         elif isinstance(s, (ast.Import, ast.ImportFrom)):
             pass
         elif isinstance(s, ast.Delete):
-            raise OutOfReach("del")
+            for t in s.targets:
+                if isinstance(t, ast.Name):
+                    frame.locals.pop(t.id, None)
+                elif isinstance(t, ast.Subscript):
+                    seq = self.eval(t.value, frame)
+                    if not isinstance(seq, (list, dict)):
+                        raise OutOfReach("del on %s" % type(seq).__name__)
+                    sl = t.slice
+                    if isinstance(sl, ast.Slice):
+                        def bound(n):
+                            if n is None:
+                                return None
+                            v = self.eval(n, frame)
+                            v = Num.of(v) if not isinstance(v, int) else v
+                            if isinstance(v, Num):
+                                if not v.is_concrete():
+                                    raise OutOfReach("del with a symbolic slice bound")
+                                v = v.native()
+                            return int(v)
+                        del seq[bound(sl.lower):bound(sl.upper):bound(sl.step)]      # in place: aliases see it
+                    else:
+                        k = self.eval(sl, frame)
+                        if isinstance(k, Num):
+                            if not k.is_concrete():
+                                raise OutOfReach("del with a symbolic index")
+                            k = k.native()
+                        del seq[k]
+                else:
+                    raise OutOfReach("del target %s" % type(t).__name__)
         else:
             raise OutOfReach("statement %s" % type(s).__name__)
 
@@ -637,7 +668,13 @@ class Interp(object):
                 if any(exc_matches(e.cls, n) for n in names):
                     if h.name:
                         frame.locals[h.name] = Opaque(e)
-                    self.exec_block(h.body, frame)
+                    if not hasattr(frame, "handling"):
+                        frame.handling = []
+                    frame.handling.append(e)            # the exception a bare `raise` re-raises
+                    try:
+                        self.exec_block(h.body, frame)
+                    finally:
+                        frame.handling.pop()
                     return
             raise
         else:
